@@ -81,6 +81,10 @@ def norm_impl(line):
 
 
 def run(chk, replay=None):
+    return run_rt(chk, replay, oracle, "C01")
+
+
+def run_rt(chk, replay, oracle, prop):
     gate, hb = core.std_setup(chk)
     rng = random.Random(chk.seed)
     n = 3000 if chk.tier == "quick" else 60000
@@ -123,7 +127,7 @@ def run(chk, replay=None):
         max_case_len=max(len(c) for c in cases))
     # report
     for c, why, o in failing[:3]:
-        chk.violation("C01 fails on the implementation: " + why, dict(kind="case", case=c, impl_output=o[:2000]))
+        chk.violation(prop + " fails on the implementation: " + why, dict(kind="case", case=c, impl_output=o[:2000]))
     if not failing:
         if mism:
             c, o, m, prof = mism[0]
@@ -133,6 +137,6 @@ def run(chk, replay=None):
                                case=c, impl_output=o[:2000], model_output=m[:2000], build=prof), no_input=True)
         if not gate["ok"]:
             chk.violation("proof obligation broken: %s (%s)" % (gate.get("failed"), gate.get("error", "")[:300]),
-                          dict(kind="proof", theorem_file="coq/Properties/C01.v", failed=gate.get("failed"),
+                          dict(kind="proof", theorem_file="coq/Properties/%s.v" % prop, failed=gate.get("failed"),
                                error=gate.get("error"), theorems=gate["theorems"]), no_input=True)
     return chk.finish()
